@@ -22,7 +22,8 @@ META = {
         "four lists after the last producer, desc_is_flawed == bool(e_flags), "
         "check_error_tracts asking about all three components, every warning "
         "regex wired into gen_flags_chunk, exact membership of the trigger "
-        "phrases, and the context slice covering the match."),
+        "phrases, and the context slice covering the match."
+        " Also: the error check covers Twp, Rge and Sec (no constant False switch, wrapper/callee defaults agree), TractParser takes over its parent's flags whenever there is a parent, parallel clause / row shapes of TRS.is_error."),
     'families': ['PAIR', 'TBL', 'ORDER', 'RX-LANG', 'FORWARD', 'DEADPARAM', 'SIB-DEFAULTS'],
 }
 
